@@ -8,7 +8,9 @@ cp $wt/_out/patch.diff $d/patch.diff
 demo=$(head -1 $wt/_out/demo_path.txt | tr -d ' \n')
 cp $wt/_out/zz_demo_test.go $d/zz_demo_test.go
 cp $wt/_out/notes.md $d/notes.md 2>/dev/null
-out=$(/verif/tools_seedcheck.sh $prop $d/patch.diff quick 2>&1)
+tool=/verif/tools_seedcheck.sh
+[ "$SEEDCHECK" = wt ] && tool=/verif/tools_seedcheck_wt.sh
+out=$($tool $prop $d/patch.diff quick 2>&1)
 viol=$(echo "$out" | grep '^VIOLATION' | head -3 | tr '\n' ';')
 code=$(echo "$out" | grep '^exit=' | cut -d= -f2)
 python3 - "$prop" "$d" "$demo" "$viol" "$code" <<'PY'
